@@ -111,12 +111,9 @@ theorem branchChildren_objs (L : Limits) (pvid depth : Nat) (o : PyObj) (bs : Li
 
 theorem childNodes_objs (L : Limits) (pvid : Nat) (o : PyObj) (d : Nat) (cs : List Node)
     (h : childNodes L pvid o d = .ok cs) : ∀ c ∈ cs, c.obj ∈ kidObjs o := by
-  unfold childNodes at h
-  split at h
-  · simp only [Except.ok.injEq] at h; subst h; simp
-  · split at h
-    · simp only [Except.ok.injEq] at h; subst h; simp
-    · exact branchChildren_objs L pvid (d + 1) o childBranches cs h
+  rcases childNodes_ok_cases h with rfl | ⟨_, hb⟩
+  · simp
+  · exact branchChildren_objs L pvid (d + 1) o childBranches cs hb
 
 /-- closure invariant of one search started from cache `c0` and table `t0` -/
 structure KInv (LO : List ObjId) (c0 : Cache) (t0 : List Entry) (s : BState) : Prop where
@@ -390,7 +387,13 @@ theorem collectWatches_closed {H : Heap} {L : Limits} {LO : List ObjId} (hB : Be
     simp only [collectWatches]
     rw [pc.nofail]
     split
-    · exact ih hmerge
+    · simp only
+      split
+      · rename_i hvn _
+        have := processVariable_vid_none (H := H) (L := L) c [] w.expr w.value hvn
+        rw [this.1]
+        exact ih hc
+      · exact ih hmerge
     · simp only
       split
       · rename_i hvn _
